@@ -227,5 +227,12 @@ def check(s):
                     skip=tuple(a for a in ("gamma", "tau", "batch_size", "policy_frequency", "autotune", "initial_alpha", "target_update_interval", "max_grad_norm")))
     from .util import no_late_binding
     no_late_binding(s, "C05.5", ("lerax.buffer", "lerax.algorithm.off_policy"))
-    for r_, n in (("C05.1", 20), ("C05.2", 4), ("C05.3", 4), ("C05.4", 10), ("C05.5", 7), ("C05.5", 40)):
+    # ---------------------------------------------------------------- C05.7 `done = terminal or truncated` and the timeout flag are read off env.terminal /
+    # env.truncate of whatever stack the collector is given: every wrapper hands the inner flags through and TimeLimit ORs its own
+    # count with the inner truncation (closed form), so a truncation raised inside the stack reaches the stored flags
+    from .C13 import check_delegation, check_timelimit
+    check_delegation(s, "C05.7", ["terminal", "truncate"])
+    check_timelimit(s, "C05.7")
+
+    for r_, n in (("C05.7", 20), ("C05.1", 20), ("C05.2", 4), ("C05.3", 4), ("C05.4", 10), ("C05.5", 7), ("C05.5", 40)):
         s.floor(r_, n)
